@@ -644,7 +644,7 @@ def check_c06(ctx, cov):
     # (c) round trips in all configurations
     tj, j = [], 100000
     for m in ms + pend:
-        if m.pending:
+        if m.pending or m.nf > 60000:      # chain22000 (5 MB text, > 10^6 tokens) is only written and decoded
             continue
         for fmt in ('ovmb', 'ascii'):
             # the 65536-entity soups (records of ~60 MB) make one round trip per format
